@@ -86,6 +86,23 @@ func moveTo(c *Ctx, r *Runner, bucket string, cur map[string]bool, want []string
 	sort.Strings(dels)
 	// delete deeper keys first so that fs directories empty out
 	sort.Slice(dels, func(i, j int) bool { return len(dels[i]) > len(dels[j]) })
+	if len(dels) >= 2 && c.Rng.Intn(3) == 0 {
+		// one multi-object delete instead of single deletes (shuffled order)
+		var objs []ObjID
+		for _, i := range c.Rng.Perm(len(dels)) {
+			objs = append(objs, ObjID{Key: dels[i]})
+		}
+		before := c.NMism
+		l, o := r.DelMulti(bucket, objs)
+		r.judgeProj(l, o, finger+":multidelete", ident, specProjC02)
+		for _, k := range dels {
+			delete(cur, k)
+		}
+		dels = nil
+		if c.NMism > before {
+			return false
+		}
+	}
 	for _, k := range dels {
 		before := c.NMism
 		l, o := r.Del(bucket, k)
@@ -223,6 +240,34 @@ func runC03(c *Ctx) {
 					continue
 				}
 				doList(set, pf, d, c.Rng.Intn(2) == 0, "c03:list-rich:"+fsClass(inst, pf, d))
+			}
+		}
+		if ok && kind == "mem" {
+			// delete-marked keys: a versioned bucket in which plain deletes leave markers behind
+			moveTo(c, r, bucket, cur, nil, "c03:history")
+			l, o := r.SetVer(bucket, "E")
+			r.judgeProj(l, o, "c03:setver", ident, nil)
+			vkeys := []string{"a/x", "a/y", "b/x", "c", "c/d/e", "ab"}
+			nv := 40
+			if c.Thorough() {
+				nv = 400
+			}
+			for i := 0; i < nv; i++ {
+				k := vkeys[c.Rng.Intn(len(vkeys))]
+				before := c.NMism
+				if c.Rng.Intn(2) == 0 {
+					l, o = r.Put(bucket, k, nil, []byte(fmt.Sprint("v", i)))
+					r.judgeProj(l, o, "c03:versioned:put", dropVid, specProjC02)
+				} else {
+					l, o = r.Del(bucket, k)
+					r.judgeProj(l, o, "c03:versioned:delete", dropVid, specProjC02)
+				}
+				if c.NMism > before {
+					break
+				}
+				for _, pd := range [][2]string{{"", ""}, {"", "/"}, {"a", "/"}, {"a/", "/"}, {"c", "/"}, {"c/", "/"}, {"a", ""}} {
+					doList(vkeys, pd[0], pd[1], c.Rng.Intn(2) == 0, "c03:list-versioned")
+				}
 			}
 		}
 		inst.Close()
@@ -445,9 +490,8 @@ func c04WalkRaw(c *Ctx, r *Runner, bucket, pfx, d, start, maxKeysQ string, clamp
 		q := ListReq{Bucket: bucket, HasPrefix: pfx != "", Prefix: pfx, HasDelim: d != "", Delim: d,
 			MarkerKind: markerKind, Marker: marker, MaxKeys: maxKeysQ, V2: v2, ClampedMaxKeys: clamped}
 		line, lo := r.List(q)
-		before := c.NMism
 		_, spec := r.judgeProj(line, lo.Obs, "c04:page", ident, nil)
-		if c.NMism > before || !lo.OK {
+		if !lo.OK {
 			return
 		}
 		if pages == 0 {
